@@ -399,6 +399,20 @@ func c01Run(c *fw.Ctx, tree *enode, tier string) {
 				vc.Add(variables.NewVariable(n, p.mk()))
 				d = append(d, n+"="+p.label)
 			}
+			// behind them: the same names in the other letter case (the first one added wins) and twelve more
+			// entries, so that the collection is past any small-collection shortcut
+			for _, n := range names {
+				other := strings.ToUpper(n)
+				if other == n {
+					other = strings.ToLower(n)
+				}
+				if other != n {
+					vc.Add(variables.NewVariable(other, variants.VariantFromInteger(999)))
+				}
+			}
+			for f := 1; f <= 12; f++ {
+				vc.Add(variables.NewVariable("filler"+itoa(f), variants.VariantFromInteger(f)))
+			}
 			return vc, strings.Join(d, ",")
 		}
 		vars1, desc := mkVars()
